@@ -32,6 +32,9 @@ KINDS = ["minlang", "maxlang", "minstd", "maxstd"]
 # development aid (mutation trials on a loaded machine): same code path, far fewer invocations;
 # never used by the registered tiers and recorded in the evidence when set
 SMOKE = os.environ.get("VERIF_SMOKE") == "1"
+# VERIF_CAP=N: thorough path (all modules for the compiler validation, TLC coverage) with at most N
+# probe invocations and N/2 tie invocations; recorded in the evidence when set
+CAP = int(os.environ.get("VERIF_CAP", "0") or 0)
 CODE2KIND = {"XV1001": "minlang", "XV1002": "maxlang", "XV1003": "minstd", "XV1004": "maxstd"}
 
 # language features gated by the compiler on the file's language version
@@ -90,6 +93,8 @@ def validate_lang_against_compiler(ctx, tc, cases, tcminor):
     for m, cs in sorted(byM.items()):
         if SMOKE and m not in (min(byM), 22):
             continue
+        if ctx.quick and m not in (min(byM), 20, 21, 22, max(byM)):
+            continue   # quick: both sides of the go1.21 change of semantics and the extremes
         d = os.path.join(root, "m%d" % m)
         os.makedirs(d)
         with open(os.path.join(d, "go.mod"), "w") as f:
@@ -349,6 +354,8 @@ def run(ctx):
         inv = sorted(keep)
     if SMOKE:
         inv = [mg for mg in inv if mg in ((17, 0), (22, 0), (26, 0))] + vlib.sample(ctx, [mg for mg in inv if mg[1]], 4)
+    if CAP and not ctx.quick:
+        inv = vlib.sample(ctx, inv, CAP)
 
     def do(mg):
         m, g = mg
@@ -409,7 +416,7 @@ def run(ctx):
         "states": r.distinct + rt.distinct,
         "transitions": r.generated + rt.generated,
         "traces_validated_against_impl": n_sites + n_tie,
-        "exhaustive": not ctx.quick,
+        "exhaustive": not ctx.quick and not CAP,
         "tlc": {"module": "MCVersions", "configs": ["MCVersions_grid.cfg", "MCVersions_tie.cfg"],
                 "wall_s": round(r.wall + rt.wall, 1),
                 "invariants": ["TypeOK", "HalfLines", "MinMaxComplement", "Monotone", "PlainModule", "GoFlagOverrides",
@@ -418,6 +425,7 @@ def run(ctx):
                 "coverage_zero": r.coverage_zero},
         "phase_wall_s": phases,
         "smoke_mode": SMOKE,
+        "cap": CAP,
         "grid_configurations": len(cases),
         "probe_invocations": len(inv),
         "probe_sites_compared": n_sites,
@@ -447,9 +455,12 @@ def tie(ctx, sc, tc, tie_cases):
         lowest = min(g for _, g in inv if g)
         keep = [mg for mg in inv if mg[1] == 0] + [mg for mg in inv if mg[1] == lowest][:1]
         rest = [mg for mg in inv if mg not in keep]
-        inv = keep + vlib.sample(ctx, rest, 7)
+        inv = keep + vlib.sample(ctx, rest, 5)
     if SMOKE:
         inv = inv[:2] + [mg for mg in inv if mg[1]][:2]
+    if CAP and not ctx.quick:
+        lowest = min(g for _, g in inv if g)
+        inv = [mg for mg in inv if mg[1] in (0, lowest)][:max(2, CAP // 2)]
     root = ctx.tmp("tie")
 
     def do(mg):
@@ -471,7 +482,7 @@ def tie(ctx, sc, tc, tie_cases):
                 dr = "missing" if chk in want else "extra"
                 mism.setdefault((chk, dr, bool(failures)), []).append((c, argv, failures))
     for chk, s in seen.items():
-        if s != {True, False} and not SMOKE:
+        if s != {True, False} and not SMOKE and not CAP:
             raise Inconclusive("tie does not exercise both outcomes of %s" % chk)
     for (chk, dr, failed), lst in sorted(mism.items()):
         c, argv, failures = lst[0]
